@@ -277,6 +277,14 @@ def case_fsync_error(p):
         want_old = _expected_view(s1, pool)
         c2 = _controller()
         c2.load_data(fname)
+        keep = {pool[m][0] for m in s2 if m in s1}
+        for alias in list(c2.aliases):
+            if alias not in keep:
+                pg = c2.aliases.pop(alias)
+                c2.pairings.pop(pg.id.lower(), None)
+                for t_ in c2.transports.values():
+                    t_.aliases.pop(alias, None)
+                    t_.pairings.pop(pg.id.lower(), None)
         _apply_members(c2, [m for m in s2 if m not in s1], pool)
         real_fsync, real_fdatasync = os.fsync, os.fdatasync
         fired = {"n": 0}
@@ -306,6 +314,16 @@ def case_fsync_error(p):
             out.append(("fsync-error:save-reports-success-though-the-disk-failed", dict(det, load=str(r[:2])[:120])))
         if r[0] != "ok" or r[1] not in (want_old, _expected_view(s2, pool)):
             out.append(("fsync-error:previously-saved-pairings-lost", dict(det, load=str(r[:2])[:160])))
+        if not out and raised is not None:
+            # the fault clears and the application saves again (same controller object): now the new pairings are on the disk
+            try:
+                c2.save_data(fname)
+            except Exception as e:  # noqa: BLE001
+                out.append((f"fsync-error:save-after-the-fault-cleared-raises:{type(e).__name__}", dict(det, err=str(e)[:120])))
+            else:
+                r2 = _load(fname)
+                if r2[0] != "ok" or r2[1] != _expected_view(s2, pool):
+                    out.append(("fsync-error:save-after-the-fault-cleared-reports-success-but-the-file-holds-the-old-pairings", dict(det, load=str(r2[:2])[:160])))
     return out
 
 
@@ -1113,8 +1131,9 @@ def run(ctx):
             rec = _record_save(env, sc, seed)
             states, stats = crashfs.crash_states(rec["initial"], rec["log"])
             nstates[sc] = len(states)
-            ctx.require(any(op[0] == "write" for op in rec["log"]), f"recorder saw no write during save2 of {sc}")
-            ctx.require(stats["byte_points"] >= len(rec["final"].get(TARGET, b"")), f"fewer crash points than bytes written in {sc}")
+            # (a save of unchanged data may legitimately write nothing at all)
+            ctx.require(any(op[0] == "write" for op in rec["log"]) or SCENARIOS[sc][0] == SCENARIOS[sc][1], f"recorder saw no write during save2 of {sc}")
+            ctx.require(stats["byte_points"] >= len(rec["final"].get(TARGET, b"")) or not any(op[0] == "write" for op in rec["log"]), f"fewer crash points than bytes written in {sc}")
     for sc in scenarios:
         step = 120
         for lo in range(0, nstates[sc], step):
